@@ -196,14 +196,32 @@ func c20Run(c *caseCtx) (res caseResult) {
 			return false
 		}
 		e.BroadcastEvent(actor.RemoteUnreachableEvent{ListenAddr: sentinel.Host})
-		return waitFor(wd, func() bool {
+		if waitFor(wd/3, func() bool {
 			for _, id := range agentIDs() {
 				if id == sentinel.ID {
 					return false
 				}
 			}
 			return true
-		})
+		}) {
+			return true
+		}
+		// decide on state: what does the provider itself say (a handshake makes it report, so the agent is read first)
+		before := agentIDs()
+		ids, ok = handshake(cl.Member())
+		if !ok {
+			return false
+		}
+		inProvider := false
+		for _, id := range ids {
+			if id == sentinel.ID {
+				inProvider = true
+			}
+		}
+		if !inProvider {
+			res.violate("a member was reported unreachable: the provider removed it (its handshake reply lists %v) but did not tell its agent, whose view stayed %v", ids, before)
+		}
+		return false
 	}
 	steps := 5 + r.Intn(36)
 	var script []string
